@@ -18,7 +18,7 @@ MC_INV = {
 }
 T_MON = {
     "C03": ["M_ReadIsSnapshot", "M_MoreFlag", "M_CountIsSnapshot", "M_StreamIsSnapshot", "M_ReadableServed", "M_HeaderCoversData", "M_ReadStable", "M_BulkStreamExactlyOnce"],
-    "C08": ["M_FloorMonotone", "M_FloorAccepted", "M_BelowFloorRefused", "M_CompactClampCommitted"],
+    "C08": ["M_FloorMonotone", "M_FloorAccepted", "M_BelowFloorRefused", "M_CompactClampCommitted", "M_EngineAnswers"],
     "C13": ["M_ReadIsSnapshot", "M_CountIsSnapshot", "M_StreamIsSnapshot", "M_StreamOneTerminator", "M_StreamBatchRevision", "M_PartitionsTileInterval", "M_BulkStreamExactlyOnce"],
     "C12": ["M_EnginesAgree"],
 }
@@ -241,7 +241,7 @@ def check_seq(prop, tier, seed):
             if not v:
                 # an engine whose own partition answer is malformed is an engine that behaves differently (the recording wrapper does
                 # not pass such an answer on, so the transcripts cannot show it)
-                _, v = validate_all(work, alltraces, ["M_PartitionsTileInterval"], chunks=8)
+                _, v = validate_all(work, alltraces, ["M_PartitionsTileInterval", "M_EngineAnswers"], chunks=8)
             if not v:
                 # ... and so is one on which an Event that was deleted and created again does not expire as a whole: the scripted
                 # expiry scenario (real TTL of 2 s) on every engine, each judged against the same expectations
